@@ -266,7 +266,7 @@ def forbidden_scan():
   return hits
 
 
-EXTRA_PROPS = {'C02': ['Lexer'], 'C03': ['Lexer'], 'C06': ['AtomRoundTrip', 'PPrint', 'ConfigText', 'ConfigTextImports', 'PPrintStr', 'PPrintStrReadsBack']}
+EXTRA_PROPS = {'C02': ['Lexer'], 'C03': ['Lexer'], 'C06': ['AtomRoundTrip', 'PPrint', 'ConfigText', 'ConfigTextImports', 'PPrintStr', 'PPrintStrReadsBack', 'ConfigTextStr', 'ConfigTextMore']}
 
 
 def proof_step(pid, thorough=False):
